@@ -152,8 +152,9 @@ func (c *Config) Unpack(to interface{}, options ...Option) error {
 	if !isValid {
 		return raisePointerRequired(vTo)
 	}
-	if k == reflect.Ptr && vTo.IsNil() {
-		// a typed nil pointer: there is nothing to unpack into
+	if vTo.IsNil() {
+		// a typed nil pointer or a nil map passed by value: there is nothing
+		// to unpack into
 		return raiseNil(ErrNilValue)
 	}
 
